@@ -23,6 +23,10 @@ def build(tier, seed, prop='C05', keep=('C05.',)):
             chk.script('%s %s' % (method, route),
                        gen_scripts.provider_script(route, method, wobj),
                        common.handler_names(wobj))
+    if prop == 'C05':
+        from props import C05_reshaper
+        chk.script('POST /reshaper guard', C05_reshaper.script,
+                   ['placement/handlers/reshaper.py:reshape'])
     leafs.add(chk, ['cas.provider'])
     mutators.add(chk)
     chk.replayer('C05.', replay_c05)
